@@ -30,7 +30,15 @@ ARFF_SPARSE = ['@relation t', '@attribute a numeric', '@attribute b {x,y}', '@at
 ARFF_QUOTES = ['@relation t', '@attribute a string', '@attribute b string', '@attribute c numeric', '@data',
                "'p q',r,1", '"s, t",u,2', "v,'w\"',3"]
 
-SOURCES = ['dl', 'dc', 'sk', 'si', 'sc', 'ad', 'as', 'aq']
+SOURCES = ['dl', 'dc', 'sk', 'si', 'sc', 'ad', 'as', 'aq', 'lz', 'lzs']
+
+# LazyDense / LazySparse constructed the way ArffReader wires them (loader callable, encoders, header maps, not-sparse set),
+# but with encoders that are not idempotent, so that an encoder applied twice or to the wrong column is visible
+LZ_RAW = [['10', '11', '12'], ['20', '21', '22']]
+LZ_ENC = ['I', 'A', 'B']
+LZS_RAW = [{0: '10', 2: '12'}, {1: '21'}]
+LZS_ENC = {0: 'I', 1: 'A', 2: 'B'}
+LZ_HDR = ['a', 'b', 'c']
 
 
 def cat(v, levels): return Categorical(v, list(levels))
@@ -76,6 +84,17 @@ def source_model(name):
     if name == 'aq':
         return Tbl('dense', [['p q', 'r', 1.0], ['s, t', 'u', 2.0], ['v', 'w"', 3.0]],
                    headers=['a', 'b', 'c'], missing=[False, False, False], plain=False, arff=True)
+    if name == 'lz':
+        return Tbl('dense', [[ENC[e](v) for e, v in zip(LZ_ENC, r)] for r in LZ_RAW], headers=list(LZ_HDR), missing=[False, False],
+                   plain=False, arff=True)
+    if name == 'lzs':
+        rows = []
+        for r in LZS_RAW:
+            o = {LZ_HDR[k]: ENC[LZS_ENC[k]](v) for k, v in r.items()}
+            for k, e in LZS_ENC.items():
+                if k not in r and ENC[e]('0') != 0: o[LZ_HDR[k]] = ENC[e]('0')
+            rows.append(o)
+        return Tbl('sparse', rows, missing=[False, False], plain=False, arff=True)
     raise ValueError(name)
 
 
@@ -84,6 +103,8 @@ def source_raw(name):
     if name == 'ad': return ('arff', list(ARFF_DENSE))
     if name == 'as': return ('arff', list(ARFF_SPARSE))
     if name == 'aq': return ('arff', list(ARFF_QUOTES))
+    if name == 'lz': return ('lazydense', [list(r) for r in LZ_RAW])
+    if name == 'lzs': return ('lazysparse', [dict(r) for r in LZS_RAW])
     t = source_model(name)
     return ('rows', [list(r) if t.kind == 'dense' else dict(r) for r in t.rows])
 
@@ -351,4 +372,5 @@ def stage_kind(st):
 
 
 SRC_KIND = {'dl': 'dense lists', 'dc': 'dense lists with Categorical', 'sk': 'sparse dicts', 'si': 'sparse dicts (int keys)',
-            'sc': 'sparse dicts with Categorical', 'ad': 'ARFF dense', 'as': 'ARFF sparse', 'aq': 'ARFF dense (mixed quoting)'}
+            'sc': 'sparse dicts with Categorical', 'ad': 'ARFF dense', 'as': 'ARFF sparse', 'aq': 'ARFF dense (mixed quoting)',
+            'lz': 'LazyDense rows', 'lzs': 'LazySparse rows'}
